@@ -15,14 +15,16 @@
 EXTENDS Scenarios
 
 TargetKinds == {"local", "aux1", "aux2", "aux3", "trans", "selfrec", "mutual", "arrayself", "mapself",
-                "auxarrayself", "anonprop", "anonitems", "anonallof", "sharedparam", "sharedresp"}
-Shapes      == {"prim", "object", "arrayref", "tuple", "allof", "map", "nested"}
+                "auxarrayself", "anonprop", "anonitems", "anonallof", "sharedparam", "sharedresp", "diamond"}
+Shapes      == {"prim", "object", "arrayref", "tuple", "allof", "map", "nested", "ptrarray"}
 HolderKinds == {"prop", "items", "tuple", "addprops", "additems", "allof", "alias", "opbody", "pathbody",
-                "code", "default", "sharedparam", "sharedresp", "nested", "opnested", "opitems"}
+                "code", "default", "sharedparam", "sharedresp", "nested", "opnested", "opitems",
+                "auxresp", "auxparam", "auxpathitem"}
+AuxHolders  == {"auxresp", "auxparam", "auxpathitem"}
 SecondKinds == {"none", "code", "prop2", "same"}
 Collisions  == {"none", "exact", "case", "twoimports"}
 
-AuxTargets  == {"aux1", "aux2", "aux3", "trans", "selfrec", "mutual", "auxarrayself"}
+AuxTargets  == {"aux1", "aux2", "aux3", "trans", "selfrec", "mutual", "auxarrayself", "diamond"}
 AnonTargets == {"anonprop", "anonitems", "anonallof"}
 SharedPtrTargets == {"sharedparam", "sharedresp"}
 
@@ -39,6 +41,8 @@ Body(s, helper) ==
     [] s = "allof"    -> Mk(<<>>, [allOf |-> ListOf(<<helper, ObjP([N_6 |-> Str])>>)])
     [] s = "map"      -> Obj([additionalProperties |-> ObjP([N_6 |-> Int])])
     [] s = "nested"   -> ObjP([N_6 |-> ObjP([N_13 |-> Str]), N_14 |-> Mk([type |-> "array"], [items |-> ObjP([N_15 |-> helper])])])
+    \* an array whose items are a further anonymous pointer, to the sibling property N_4 (only with target kind anonprop)
+    [] s = "ptrarray" -> Mk([type |-> "array"], [items |-> RefTo(<<"root", "definitions", "N_1", "properties", "N_4">>)])
 
 \* where the planted $ref points, and the documents that make it resolve
 \* returns [ref |-> <<doc, tok...>>, docs |-> [docId -> definitions record], params, resps]
@@ -62,6 +66,10 @@ TargetOf(t, s) ==
     [] t = "mutual" -> [ref |-> <<"aux1", "definitions", "N_1">>, rootdefs |-> <<>>,
                        aux |-> [aux1 |-> AuxDoc([N_1 |-> ObjP([N_3 |-> RefTo(<<"aux1", "definitions", "N_2">>)]),
                                                  N_2 |-> ObjP([N_4 |-> RefTo(<<"aux1", "definitions", "N_1">>), N_5 |-> Body(s, HelperIn("aux1"))]),
+                                                 N_7 |-> HelperDef])], params |-> <<>>, resps |-> <<>>]
+    \* the imported definition N_1 is reached directly AND through another imported definition N_2 of the same document
+    [] t = "diamond" -> [ref |-> <<"aux1", "definitions", "N_1">>, rootdefs |-> <<>>,
+                       aux |-> [aux1 |-> AuxDoc([N_1 |-> Body(s, HelperIn("aux1")), N_2 |-> ObjP([N_3 |-> RefTo(<<"aux1", "definitions", "N_1">>), N_4 |-> Int]),
                                                  N_7 |-> HelperDef])], params |-> <<>>, resps |-> <<>>]
     [] t = "arrayself" -> [ref |-> <<"root", "definitions", "N_1">>,
                        rootdefs |-> [N_1 |-> Mk([type |-> "array"], [items |-> RefTo(<<"root", "definitions", "N_1">>)])],
@@ -90,6 +98,17 @@ TargetOf(t, s) ==
 OpId(id, ch) == Mk([operationId |-> id], ch)
 UseDef(n) == OpId("usedef", [responses |-> Mk(<<>>, ("200" :> Resp([schema |-> RefTo(<<"root", "definitions", n>>)])))])
 
+\* holders that live in the auxiliary document aux1 (shared objects of another file): REF must be local to aux1
+AuxHolderDoc(h, REF) ==
+  CASE h = "auxresp"     -> [responses |-> Mk(<<>>, [N_20 |-> Resp([schema |-> REF])])]
+    [] h = "auxparam"    -> [parameters |-> Mk(<<>>, [N_20 |-> BodyParam(REF)])]
+    [] h = "auxpathitem" -> [paths |-> Mk(<<>>, [P_9 |-> PathItemWith([get |-> OpId("remote", [responses |-> Mk(<<>>, ("200" :> Resp([schema |-> REF])))])])])]
+    [] OTHER -> <<>>
+AuxHolderRoot(h) ==
+  CASE h = "auxresp"     -> PathItemWith([get |-> Op([responses |-> Mk(<<>>, ("200" :> RefTo(<<"aux1", "responses", "N_20">>)))])])
+    [] h = "auxparam"    -> PathItemWith([post |-> Op([parameters |-> ListOf(<<RefTo(<<"aux1", "parameters", "N_20">>)>>), responses |-> OkResponses])])
+    [] h = "auxpathitem" -> RefTo(<<"aux1", "paths", "P_9">>)
+
 Holder(h, REF) ==
   LET inDef(body) == [defs |-> [N_8 |-> body], params |-> <<>>, resps |-> <<>>,
                       path |-> PathItemWith([get |-> UseDef("N_8")])]
@@ -109,6 +128,7 @@ Holder(h, REF) ==
     [] h = "default"  -> inOp(PathItemWith([delete |-> Op([responses |-> Mk(<<>>, [default |-> Resp([schema |-> REF])])])]))
     [] h = "opnested" -> inOp(PathItemWith([patch |-> Op([responses |-> Mk(<<>>, ("201" :> Resp([schema |-> ObjP([N_9 |-> REF, N_10 |-> Str])])))])]))
     [] h = "opitems"  -> inOp(PathItemWith([head |-> Op([responses |-> Mk(<<>>, ("200" :> Resp([schema |-> Mk([type |-> "array"], [items |-> REF])])))])]))
+    [] h \in AuxHolders -> [defs |-> <<>>, params |-> <<>>, resps |-> <<>>, path |-> AuxHolderRoot(h)]
     [] h = "sharedparam" -> [defs |-> <<>>, params |-> [N_12 |-> BodyParam(REF)], resps |-> <<>>,
                              path |-> PathItemWith([post |-> Op([parameters |-> ListOf(<<RefTo(<<"root", "parameters", "N_12">>)>>), responses |-> OkResponses])])]
     [] h = "sharedresp"  -> [defs |-> <<>>, params |-> <<>>, resps |-> [N_12 |-> Resp([schema |-> REF])],
@@ -137,8 +157,11 @@ Op2(at, ch) == Mk(at, ch)
 RefFreeShape(s) == s \in {"prim", "object", "map"}
 ValidCombo(t, s, h, h2, c) ==
   /\ (t \in {"arrayself", "mapself", "auxarrayself"} => s = "prim")           \* the shape is fixed by the kind
-  /\ (c # "none" => t \in {"aux1", "aux2"} /\ RefFreeShape(s))
+  /\ (c # "none" => t \in {"aux1", "aux2", "diamond"} /\ RefFreeShape(s))
   /\ (c = "twoimports" => t # "aux3")
+  /\ (c # "none" /\ t = "diamond" => RefFreeShape(s))
+  /\ (s = "ptrarray" <=> FALSE) \/ (s = "ptrarray" /\ t = "anonprop")
+  /\ (h \in AuxHolders => t \in {"aux1", "selfrec", "mutual", "diamond"} /\ h2 \in {"none", "code"} /\ c = "none")
 
 Assemble(t, s, h, h2, c) ==
   LET T  == TargetOf(t, s)
@@ -149,11 +172,18 @@ Assemble(t, s, h, h2, c) ==
       defs   == C.defs @@ T.rootdefs @@ H.defs @@ S2.defs
       params == T.params @@ H.params
       resps  == T.resps @@ H.resps
-      paths  == ("P_1" :> H.path) @@ S2.path @@ C.path
+      dia    == IF t = "diamond"
+                THEN ("P_4" :> PathItemWith([get |-> OpId("fourth", [responses |-> Mk(<<>>, ("200" :> Resp([schema |-> RefTo(<<"aux1", "definitions", "N_2">>)])))])]))
+                ELSE <<>>
+      paths  == ("P_1" :> H.path) @@ S2.path @@ C.path @@ dia
       extra  == (IF DOMAIN params = {} THEN <<>> ELSE [parameters |-> Mk(<<>>, params)]) @@
                 (IF DOMAIN resps = {} THEN <<>> ELSE [responses |-> Mk(<<>>, resps)])
       root   == [Skeleton EXCEPT !.ch = ([paths |-> Mk(<<>>, paths), definitions |-> Mk(<<>>, defs)] @@ extra) @@ @]
-  IN ("root" :> root) @@ C.aux @@ T.aux
+      auxs   == C.aux @@ T.aux
+      auxs2  == IF h \in AuxHolders
+                THEN [d \in DOMAIN auxs |-> IF d = "aux1" THEN [auxs[d] EXCEPT !.ch = AuxHolderDoc(h, R) @@ @] ELSE auxs[d]]
+                ELSE auxs
+  IN ("root" :> root) @@ auxs2
 
 Cyclic(t) == t \in {"selfrec", "mutual", "arrayself", "mapself", "auxarrayself"}
 =============================================================================
